@@ -101,6 +101,10 @@ def takeHexes : List String → List Bytes × List String
 mutual
 partial def parseInit : List String → Option (Init × List String)
   | "(" :: "raw" :: h :: ")" :: r => some (.raw (parseHex h), r)
+  -- `(def X)`: the implementation takes the library's default path; `X` is the documented default as an explicit initialiser
+  | "(" :: "def" :: r => do
+      let (i, r) ← parseInit r
+      match r with | ")" :: r => some (i, r) | _ => none
   | "(" :: "ve" :: ")" :: r => some (.vecEmpty, r)
   | "(" :: "va" :: r => let (hs, r) := takeHexes r; match r with | ")" :: r => some (.vecArr hs, r) | _ => none
   | "(" :: "vi" :: r => let (hs, r) := takeHexes r; match r with | ")" :: r => some (.vecIter hs, r) | _ => none
